@@ -432,7 +432,7 @@ impl<
 
         crypto_box_open_detached(
             message.as_mut_slice(),
-            self.tag.as_array(),
+            received_array(&self.tag, "tag")?,
             self.data.as_slice(),
             nonce.as_array(),
             sender_public_key.as_array(),
@@ -460,7 +460,7 @@ impl<
 
         crypto_box_open_detached_afternm(
             message.as_mut_slice(),
-            self.tag.as_array(),
+            received_array(&self.tag, "tag")?,
             self.data.as_slice(),
             nonce.as_array(),
             precalc_secret_key.as_array(),
@@ -495,7 +495,7 @@ impl<
 
                 crypto_box_open_detached(
                     message.as_mut_slice(),
-                    self.tag.as_array(),
+                    received_array(&self.tag, "tag")?,
                     self.data.as_slice(),
                     nonce.as_array(),
                     epk.as_array(),
